@@ -1044,6 +1044,14 @@ fn evaluate(
                         let garbling_key = GarblingKey::new(label_x[p], label_y[p], w, i as u8);
                         let garbled_row = garbled_gate[i].clone();
                         let (r, mac_r, label_share) = decrypt(&garbling_key, &garbled_row)?;
+                        #[cfg(feature = "__verif")]
+                        for i2 in (0..4usize).filter(|i2| *i2 != i) {
+                            // probe: can the labels held for this gate open any other row of it?
+                            let k2 = GarblingKey::new(label_x[p], label_y[p], w, i2 as u8);
+                            if decrypt(&k2, &garbled_gate[i2]).is_ok() {
+                                crate::verif::probe("eval_row_sibling_opened", &[(w as u64).to_le_bytes(), (i2 as u64).to_le_bytes()].concat());
+                            }
+                        }
                         let Some(mac_r_for_eval) = mac_r.get(p_eval).copied() else {
                             return Err(MpcError::InvalidInputMacForInst(w).into());
                         };
